@@ -248,6 +248,7 @@ struct Shared {
 	struct Slot {
 		std::atomic<long> unit;
 		std::atomic<long> progress; // cases finished inside the unit (resume hint)
+		char step[96];				// coarse "what was running" marker (API entry point), see set_step
 		char inflight[16384];
 	} slots[64];
 };
@@ -259,6 +260,20 @@ inline void set_inflight(const std::string& s) {
 	size_t n = std::min(s.size(), sizeof(g_shared->slots[0].inflight) - 1);
 	memcpy(g_shared->slots[g_slot].inflight, s.data(), n);
 	g_shared->slots[g_slot].inflight[n] = 0;
+}
+// Private one-slot mapping for run_isolated children (no pool slot there).
+struct StepSlot { char step[96]; };
+inline StepSlot* g_stepslot = nullptr;
+inline std::string g_last_step; // step marker of the most recently reaped dead worker / isolated child
+inline void set_step(const char* s) {
+	char* dst = nullptr;
+	if (g_shared && g_slot >= 0) dst = g_shared->slots[g_slot].step;
+	else if (g_stepslot) dst = g_stepslot->step;
+	if (!dst) return;
+	size_t n = strlen(s);
+	if (n > 95) n = 95;
+	memcpy(dst, s, n);
+	dst[n] = 0;
 }
 inline void set_progress(long p) { if (g_shared && g_slot >= 0) g_shared->slots[g_slot].progress = p; }
 
@@ -281,7 +296,7 @@ inline void run_pool(size_t nunits, const PoolCfg& cfg, UnitFn fn, CrashFn on_cr
 	new (sh) Shared();
 	sh->next = 0;
 	sh->stop = 0;
-	for (auto& s : sh->slots) { s.unit = -1; s.progress = 0; s.inflight[0] = 0; }
+	for (auto& s : sh->slots) { s.unit = -1; s.progress = 0; s.inflight[0] = 0; s.step[0] = 0; }
 	g_shared = sh;
 	std::map<size_t, std::vector<std::string>> skips;
 	std::map<size_t, int> restarts;
@@ -341,6 +356,8 @@ inline void run_pool(size_t nunits, const PoolCfg& cfg, UnitFn fn, CrashFn on_cr
 		long unit = sh->slots[slot].unit.load();
 		std::string inflight = sh->slots[slot].inflight;
 		long progress = sh->slots[slot].progress.load();
+		sh->slots[slot].step[95] = 0;
+		g_last_step = sh->slots[slot].step;
 		CrashInfo ci = read_crash(cfg.rundir, pid, status, cfg.repo);
 		if (unit < 0) {
 			// died outside a unit: infrastructure problem
@@ -378,8 +395,17 @@ inline void run_pool(size_t nunits, const PoolCfg& cfg, UnitFn fn, CrashFn on_cr
 // Run one closure in a forked child with a watchdog; returns CrashInfo with cls=="" on clean exit 0.
 inline CrashInfo run_isolated(const std::string& rundir, const std::string& repo, int timeout_s, const std::function<int()>& body) {
 	fflush(stdout);
+	static StepSlot* slot = nullptr;
+	if (!slot) {
+		slot = (StepSlot*) mmap(nullptr, sizeof(StepSlot), PROT_READ | PROT_WRITE, MAP_SHARED | MAP_ANONYMOUS, -1, 0);
+		if (slot == MAP_FAILED) slot = nullptr;
+	}
+	if (slot) slot->step[0] = 0;
 	pid_t pid = fork();
 	if (pid == 0) {
+		g_shared = nullptr;
+		g_slot = -1;
+		g_stepslot = slot;
 		if (timeout_s > 0) alarm((unsigned) timeout_s);
 		int rc = body();
 		fflush(stdout);
@@ -387,6 +413,7 @@ inline CrashInfo run_isolated(const std::string& rundir, const std::string& repo
 	}
 	int status = 0;
 	waitpid(pid, &status, 0);
+	if (slot) { slot->step[95] = 0; g_last_step = slot->step; }
 	if (WIFEXITED(status) && WEXITSTATUS(status) == 0) return CrashInfo();
 	return read_crash(rundir, pid, status, repo);
 }
